@@ -45,7 +45,7 @@ type SourceRequest struct {
 
 func NewSource() *Source {
 	s := &Source{SecondOffset: -1}
-	ln, err := net.Listen("tcp", "127.0.0.1:0")
+	ln, err := Listen()
 	if err != nil {
 		panic(err)
 	}
